@@ -14,18 +14,19 @@ func init() {
 	register(&propertyDef{
 		id:    "C10",
 		title: "preparation builds exactly the dependency graph the workflow text implies",
-		rules: []ruleFunc{c10R0, c10R1, c10R1b, c10R2, c10R3, c10R4},
+		rules: []ruleFunc{c10R0, c10R1, c10R1b, c10R2, c10R3, c10R4, c10R5},
 		decided: "every reference and every stage order becomes an edge (R0 = C02.R1-R3); the only non-nil workflow Prepare returns is dominated by the success edges of every preparation stage and by the acyclicity test (R1); every error obtained in the prepare path of the workflow package is tested and propagated (R1b); " +
-			"each tag maps to its dependency kind: expressions And, one-of group And with Or options, optional CompletionAnd/Optional by WaitForCompletion, stage->output And (R2); only the tabled prepare functions add nodes or connections, nothing in the run path does (R3); a missing required stage input and an incompatible provided one are errors (R4).",
+			"each tag maps to its dependency kind: expressions And, one-of group And with Or options, optional CompletionAnd/Optional by WaitForCompletion, stage->output And (R2); only the tabled prepare functions add nodes or connections, nothing in the run path does (R3); a missing required stage input and an incompatible provided one are errors (R4). The parse/prepare paths write no engine-lifetime object (providers, registry, executor): preparation does not depend on earlier preparations (R5).",
 		notDecided: "correctness of Expression.Dependencies / Type, of dgraph.HasCycles and of ValidateCompatibility (dependencies).",
 	})
 }
 
 func c10R0(c *Ctx) {
-	c.explain("C10.R0 = C02.R1-R3 (walker agreement; every dependency, lifecycle order and option connected; every input field and output walked)")
+	c.explain("C10.R0 = C02.R1-R3, R7 (walker agreement; every dependency, lifecycle order and option connected; every input field and output walked; the walkers descend into every element of maps and lists)")
 	relabel(c, "C02.R1", "C10.R0a", c02R1)
 	relabel(c, "C02.R2", "C10.R0b", c02R2)
 	relabel(c, "C02.R3", "C10.R0c", c02R3)
+	relabel(c, "C02.R7", "C10.R0d", c02R7)
 }
 
 // C10.R1 verdict gates of Prepare.
@@ -377,5 +378,127 @@ func c10R4(c *Ctx) {
 			}
 		})
 		c.verdict(okV, rule, "compatibility-verdict", c.pos(pv.Pos()), "preValidateCompatibility returns the schema's verdict", "preValidateCompatibility does not return the result of ValidateCompatibility")
+	}
+}
+
+// C10.R5 preparation does not depend on what was prepared before.
+// The objects that live as long as the engine — step providers, the step registry, the executor, the engine itself —
+// must not be written by the parse/prepare paths (outside their constructors): state kept there (a cache of prepared
+// sub-workflows keyed by file name, say) makes the graph built for one workflow text depend on earlier preparations.
+func c10R5(c *Ctx) {
+	const rule = "C10.R5"
+	c.explain("C10.R5 no function of the parse/prepare paths stores into a field, updates a map or calls a mutating sync.Map/atomic method of an engine-lifetime object (types implementing step.Provider, the step registry, workflow.executor, the engine) outside the functions that construct those objects: the graph built for a workflow depends on its text and context only, not on earlier preparations")
+	longLived := map[*types.TypeName]bool{}
+	if n := c.namedType(pkgStep, "Provider"); n != nil {
+		if it, ok := n.Underlying().(*types.Interface); ok {
+			for _, rp := range c.Pkgs {
+				if _, ex := excludedPkgs[rp.PkgPath]; ex || rp.Types == nil {
+					continue
+				}
+				for _, name := range rp.Types.Scope().Names() {
+					tn, ok := rp.Types.Scope().Lookup(name).(*types.TypeName)
+					if !ok {
+						continue
+					}
+					if _, isStruct := tn.Type().Underlying().(*types.Struct); !isStruct {
+						continue
+					}
+					if types.Implements(types.NewPointer(tn.Type()), it) || types.Implements(tn.Type(), it) {
+						longLived[tn] = true
+					}
+				}
+			}
+		}
+	}
+	for _, pt := range [][2]string{{pkgWorkflow, "executor"}, {repoModule, "workflowEngine"}, {repoModule + "/internal/step/registry", "stepRegistry"}} {
+		if pk := c.AllPkgs[pt[0]]; pk != nil && pk.Types != nil {
+			if tn, ok := pk.Types.Scope().Lookup(pt[1]).(*types.TypeName); ok {
+				longLived[tn] = true
+			}
+		}
+	}
+	c.minCount(rule, "engine-lifetime types", len(longLived), 4)
+	isLL := func(v ssa.Value) bool {
+		if v == nil || v.Type() == nil {
+			return false
+		}
+		tn := namedOf(v.Type())
+		return tn != nil && longLived[tn]
+	}
+	fromLL := func(v ssa.Value) bool {
+		return derivesFrom(v, func(x ssa.Value) bool {
+			switch x.(type) {
+			case *ssa.Parameter, *ssa.FreeVar:
+				return isLL(x)
+			}
+			if f := loadedField(x); f != nil {
+				return isLL(baseOfFieldLoad(x))
+			}
+			return false
+		})
+	}
+	mutating := map[string]bool{"Store": true, "LoadOrStore": true, "LoadAndDelete": true, "Delete": true, "Swap": true, "CompareAndSwap": true, "CompareAndDelete": true, "Add": true, "Clear": true}
+	scope := map[*ssa.Function][]string{}
+	for f, ch := range c.Scopes().parse {
+		scope[f] = ch
+	}
+	for f, ch := range c.Scopes().prepare {
+		scope[f] = ch
+	}
+	n := 0
+	cnt := map[string]int{}
+	for _, fn := range c.sortedFns(scope) {
+		// constructors: functions that allocate the object they write
+		eachInstr(fn, func(r instrRef) {
+			var what string
+			var target ssa.Value
+			switch x := r.I.(type) {
+			case *ssa.Store:
+				fa, ok := x.Addr.(*ssa.FieldAddr)
+				if !ok || !isLL(fa.X) {
+					return
+				}
+				if isFreshAlloc(fa.X) {
+					return // composite literal of a constructor
+				}
+				what, target = "stores into field "+fieldAddrVar(fa).Name(), fa.X
+			case *ssa.MapUpdate:
+				if !fromLL(x.Map) {
+					return
+				}
+				if f := loadedField(x.Map); f == nil {
+					return
+				}
+				what, target = "updates the map in field "+loadedField(x.Map).Name(), x.Map
+			case *ssa.Call:
+				cc := x.Common()
+				callee := cc.StaticCallee()
+				if callee == nil || callee.Signature.Recv() == nil || !mutating[callee.Name()] {
+					return
+				}
+				rt := callee.Signature.Recv().Type().String()
+				if !strings.HasPrefix(strings.TrimPrefix(rt, "*"), "sync.") && !strings.HasPrefix(strings.TrimPrefix(rt, "*"), "sync/atomic.") {
+					return
+				}
+				if len(cc.Args) == 0 {
+					return
+				}
+				fa, ok := cc.Args[0].(*ssa.FieldAddr)
+				if !ok || !isLL(fa.X) {
+					return
+				}
+				what, target = "calls "+callee.Name()+" on field "+fieldAddrVar(fa).Name(), fa.X
+			default:
+				return
+			}
+			_ = target
+			n++
+			cnt[c.fnName(fn)]++
+			c.bad(rule, fmt.Sprintf("stateful-prepare@%s#%d", c.fnName(fn), cnt[c.fnName(fn)]), c.instrPos(r.I),
+				c.fnName(fn)+" "+what+" of an engine-lifetime object while parsing/preparing: what one preparation leaves there changes the result of the next (e.g. a sub-workflow cached by file name is reused for another context's file of the same name)")
+		})
+	}
+	if n == 0 {
+		c.ok(rule, "stateless-prepare", "-", fmt.Sprintf("no write to an engine-lifetime object in %d parse/prepare functions", len(scope)), true)
 	}
 }
